@@ -204,7 +204,19 @@ type runMode struct {
 	// receives): a moment after the encoder has seen the event.  What must be observed is the same as for a
 	// context cancelled beforehand: the event, no forward, nil, the counter moved once.
 	CancelLate bool `json:"cancel_while_blocked,omitempty"`
+	// fault COMBINATIONS: the state of the context is an input of its own, whatever the writer and the receiver do.
+	// CancelBefore (with Ready): the context is cancelled before the line while the correlator IS receiving: both arms of
+	// the hand-off's select are ready.  CancelInWrite (with or without Ready): the context is cancelled from inside the
+	// event write (shutdown begins while the sink is being written to - the failing sink may be its very cause).
+	// What must be observed: a rejected write is returned as an error and nothing is forwarded, whatever the context;
+	// an accepted write with a cancelled context and a receiving correlator may or may not forward (the property says
+	// "unless its context is cancelled"), and what it forwards is the written event.
+	CancelBefore  bool `json:"cancel_before_line_receiver_ready,omitempty"`
+	CancelInWrite bool `json:"cancel_inside_event_write,omitempty"`
 }
+
+// raceyHandoff: context cancelled and receiver ready: which arm the select takes is the scheduler's choice
+func (m runMode) raceyHandoff() bool { return m.Ready && (m.CancelBefore || m.CancelInWrite) }
 
 // writeFails: the (first) write of this line's event is rejected
 func (m runMode) writeFails() bool { return !m.WriteOK || m.FailFirst > 0 }
@@ -280,9 +292,17 @@ func runOne(tok, msg string, mode runMode) observation {
 	defer cancel()
 	var fwds []obsFwd
 	recvDone := make(chan struct{})
+	// the correlator's side ends when the call is over (stop), not when the call's context does: the two are separate inputs
+	stop := make(chan struct{})
+	if mode.CancelInWrite {
+		enc.onWrite = cancel
+		defer func() { enc.onWrite = nil }()
+	}
 	if mode.Ready {
+		started := make(chan struct{})
 		go func() {
 			defer close(recvDone)
+			close(started)
 			for {
 				select {
 				case l := <-logins:
@@ -293,14 +313,24 @@ func runOne(tok, msg string, mode runMode) observation {
 						f.AfterEnc = enc.at[n-1] < seq
 					}
 					fwds = append(fwds, f)
-				case <-ctx.Done():
+				case <-stop:
 					return
 				}
 			}
 		}()
+		if mode.raceyHandoff() {
+			// both arms of the hand-off are to be ready: let the receiver reach its receive first
+			<-started
+			runtime.Gosched()
+			if mode.CancelBefore {
+				cancel()
+			}
+		}
 	} else {
 		close(recvDone)
-		if !mode.CancelLate {
+		if mode.CancelInWrite {
+			// cancelled by the encoder (above); nobody receives
+		} else if !mode.CancelLate {
 			cancel() // cancelled while the hand-off would block on an unready correlator
 		} else {
 			// cancelled once the call is inside the blocked hand-off: after the encoder saw the event (plus a moment to
@@ -352,6 +382,7 @@ func runOne(tok, msg string, mode runMode) observation {
 	}
 	obs.T1 = time.Now()
 	cancel()
+	close(stop)
 	<-recvDone
 	obs.Events = enc.events
 	obs.Fwds = fwds
@@ -533,7 +564,7 @@ func main() {
 	// another line and itself again (A B A, A B A B), B being fresh or A under another PID.  Every line, repeated
 	// or not, is judged on its own by the property's oracle.
 	var queue []caseDesc
-	gi := 0
+	gi, fresh, ordered := 0, 0, 0
 	var cur caseDesc
 	onHang = func(tok, msg string, mode runMode) {
 		// the main goroutine is stuck inside the call: nothing else touches the summary any more
@@ -585,6 +616,15 @@ func main() {
 					queue = []caseDesc{b, a}
 				}
 			}
+			// ORDER as an input (gen.go: genOrdered): the case right after a genuine line of each kind in rotation
+			if share := orderedShare[*prop]; share > 0 && fresh%share == 1 {
+				prevs, follow, after := genOrdered(r, ordered, desc)
+				ordered++
+				queue = append(append(append([]caseDesc{}, prevs[1:]...), follow), queue...)
+				desc = prevs[0]
+				sum.Dist("ordered_after_" + after)
+			}
+			fresh++
 		}
 		g, tok, mode := desc.Gen, desc.Tok, desc.Mode
 		cur = desc
@@ -597,7 +637,11 @@ func main() {
 		// correspondence case: always "as if handed over directly" — for framed runs the model is
 		// evaluated on (tok, message), which is exactly what C07 claims
 		c, bad := coqCase(tok, g.Line, mode, o)
-		if len(g.Line) > 160 {
+		if mode.raceyHandoff() && !mode.writeFails() {
+			// context cancelled AND correlator receiving: which arm the select takes is not determined (the model's
+			// hand-off is taken or cancelled); judged by the oracle only
+			sum.Dist("not_sent_to_model_cancelled_with_receiver_ready")
+		} else if len(g.Line) > 160 {
 			// the model's backtracking matcher is polynomial, Go's is linear: long lines are judged
 			// by the oracle only
 			sum.Dist("not_sent_to_model_long_line")
@@ -635,6 +679,26 @@ func main() {
 		if mode.Framed {
 			sum.Dist("mode_framed")
 		}
+		if mode.CancelBefore || mode.CancelInWrite {
+			k := "mode_write_ok"
+			if mode.writeFails() {
+				k = "mode_write_fails"
+			}
+			if mode.CancelInWrite {
+				k += "_x_cancelled_inside_write"
+			} else {
+				k += "_x_cancelled_before"
+			}
+			if mode.Ready {
+				k += "_x_receiver_ready"
+			} else {
+				k += "_x_nobody_receives"
+			}
+			sum.Dist(k)
+			if len(o.Fwds) > 0 {
+				sum.Dist(k + "_forwarded")
+			}
+		}
 		if i < 4 {
 			sum.Sample(map[string]any{"pid_token": tok, "line": g.Line, "mode": mode, "events": len(o.Events), "forwards": len(o.Fwds)})
 		}
@@ -664,6 +728,11 @@ func hangKey(prop string) string {
 	return "fields:hang"
 }
 
+// orderedShare: every share-th freshly generated case of a property's mix is processed right after a genuine line of
+// another kind (C17: client-chosen text; C05 C11 C19: no forward / nothing emitted / nothing counted that the line itself
+// does not warrant, whatever came before).
+var orderedShare = map[string]int{"C17": 3, "C05": 6, "C11": 6, "C19": 6}
+
 func hashStr(s string) uint64 {
 	var h uint64 = 1469598103934665603
 	for i := 0; i < len(s); i++ {
@@ -674,8 +743,8 @@ func hashStr(s string) uint64 {
 
 func ruleText(prop string) string {
 	return "messages rendered from sshd's format strings with generated field values (account names incl. unicode and words of the message, IPv4/IPv6/zone ids/host names, ports, all key types and lower-case/underscore/'ssh'-prefixed names of the class [A-Za-z0-9_-], SHA256/MD5 fingerprints incl. '=' padding, key IDs with spaces/parentheses/'serial'/'(serial N)'/' from A port N'/partial ' ssh2: ' fragments (domain no_ssh_frag of C06_accepted_cert), forged fragments in the account of accepted lines, serials to 2^64-1, paths with spaces), " +
-		"hostile names (C17; incl. every prefix/suffix of sshd's own phrases, empty names, escape-looking text such as #012 \\n %0a &#10;, and letters whose upper/lower/title/folded form has another UTF-8 length - enumerated from the Unicode tables -, NFC/NFD pairs, ligatures, final sigma, Turkish i's, combining marks), runs of blanks and tabs inside key ids, paths, shells, reasons and account names, arbitrary bytes and systematic mutations, sshd's generic '<Accepted|Failed|Postponed|Partial> <method> for ...' shape with hostile method tokens (invalid UTF-8, NUL, empty, very long) and every recognised message with one token replaced by hostile bytes (C11), PID tokens (valid, signed, overflowing, empty, non-numeric), write failure, a writer that recovers after 1-2 rejected writes and cancelled hand-off modes (context cancelled before the line, or while the hand-off is blocked; C05, C19), framed delivery through SyslogIngester.Process (C07, C17, C11, a third of C06); " +
-		"all lines of a run go through ONE long-lived processor (NewSshdProcessor once, ProcessSshdLogEntry per line), lines are repeated (2-4 times in a row, A B A); one private counter registry for the run; the " + prop + " oracle is evaluated from the generated fields; non-trivial = the case makes the implementation write an event; distinct by (token, line, mode)"
+		"hostile names (C17; incl. every prefix/suffix of sshd's own phrases, empty names, escape-looking text such as #012 \\n %0a &#10;, and letters whose upper/lower/title/folded form has another UTF-8 length - enumerated from the Unicode tables -, NFC/NFD pairs, ligatures, final sigma, Turkish i's, combining marks), runs of blanks and tabs inside key ids, paths, shells, reasons and account names, arbitrary bytes and systematic mutations, sshd's generic '<Accepted|Failed|Postponed|Partial> <method> for ...' shape with hostile method tokens (invalid UTF-8, NUL, empty, very long) every recognised message with one token replaced by hostile bytes (C11) and recognised messages inside envelopes (rsyslog 'message repeated N times: [ ...]' with N from 0 to beyond 1000, 'last message repeated', timestamp/host/tag, RFC 5424 and journald prefixes, a trailing [preauth], quotes, nestings, near misses; C11 C19), PID tokens (valid, signed, overflowing, empty, non-numeric), write failure, a writer that recovers after 1-2 rejected writes and cancelled hand-off modes (context cancelled before the line, or while the hand-off is blocked; C05, C19), fault combinations (C05: write failure / recovering writer x context cancelled before the line or from inside the event write x correlator receiving or not; accepted write x cancelled context x receiving correlator: both arms of the hand-off ready), framed delivery through SyslogIngester.Process (C07, C17, C11, a third of C06); " +
+		"all lines of a run go through ONE long-lived processor (NewSshdProcessor once, ProcessSshdLogEntry per line), lines are repeated (2-4 times in a row, A B A) and ORDER is an input (C17 C05 C11 C19: a case right after a genuine line of each recognised kind in rotation, with or without an unrecognised line in between; the follower every other round a failure line whose client-chosen name embeds a message of the kind just processed, cut at 100 bytes); one private counter registry for the run; the " + prop + " oracle is evaluated from the generated fields; non-trivial = the case makes the implementation write an event; distinct by (token, line, mode)"
 }
 
 // genCase: the i-th generated case of a property's mix.  Framed delivery ("<pid> <pad><message>\n" through the syslog
@@ -711,6 +780,12 @@ func genCaseMix(r *hutil.Rand, prop string, i int) (genLine, string, runMode) {
 		}
 		return genClientName(r), genPidToken(r, false), mode
 	case "C11":
+		if i%14 == 4 { // a recognised message inside an envelope (gen.go: genEnveloped), a third of them through the syslog ingester
+			if (i/14)%3 == 1 {
+				mode.Framed, mode.Pad = true, i%2
+			}
+			return genEnveloped(r, i/14), genPidToken(r, false), mode
+		}
 		switch i % 7 {
 		case 1: // client-chosen names handed over directly, edge names first
 			if (i/7)%2 == 0 {
@@ -772,6 +847,9 @@ func genCaseMix(r *hutil.Rand, prop string, i int) (genLine, string, runMode) {
 			if i%12 == 6 {
 				return genGenericAuth(r, i/12), genPidToken(r, false), mode
 			}
+			if i%12 == 0 { // a recognised message inside an envelope (syslog repeat reduction, prefixes, suffixes; gen.go: genEnveloped)
+				return genEnveloped(r, i/12), genPidToken(r, false), mode
+			}
 			return genHostile(r), genPidToken(r, true), mode
 		case 1:
 			if (i/3)%4 == 1 {
@@ -795,17 +873,45 @@ func genCaseMix(r *hutil.Rand, prop string, i int) (genLine, string, runMode) {
 				g = genHostile(r)
 			}
 		}
-		switch (i / 4) % 6 {
+		switch (i / 4) % 8 {
 		case 1:
 			mode.WriteOK = false
 		case 2:
 			mode.Ready = false
-			mode.CancelLate = (i/24)%2 == 1 // ... before the line, or while the hand-off is blocked
+			mode.CancelLate = (i/32)%2 == 1 // ... before the line, or while the hand-off is blocked
 		case 4: // the sink rejects the first write(s) of the line and would accept a later one: the error is to be returned
 			mode.FailFirst = 1
 		case 5:
 			mode.FailFirst = 2
 			mode.Framed = i%8 >= 4
+		case 6:
+			// fault COMBINATIONS: write failure x context state (cancelled before the line / from inside the write) x hand-off
+			// state (correlator receiving / nobody receives)
+			switch (i / 32) % 6 {
+			case 0:
+				mode.WriteOK, mode.Ready = false, false // cancelled before the line, nobody receives
+			case 1:
+				mode.WriteOK, mode.CancelBefore = false, true
+			case 2:
+				mode.WriteOK, mode.CancelInWrite = false, true
+			case 3:
+				mode.WriteOK, mode.CancelInWrite, mode.Ready = false, true, false
+			case 4:
+				mode.FailFirst, mode.CancelBefore = 1, true
+			case 5:
+				mode.FailFirst, mode.CancelInWrite, mode.Ready = 1+i%2, true, i%4 < 2
+			}
+			mode.Framed = (i/32)%12 >= 6 && i%2 == 0
+		case 7:
+			// the write works, the context is cancelled and the correlator receives: both arms of the select are ready
+			switch (i / 32) % 3 {
+			case 0:
+				mode.CancelBefore = true
+			case 1:
+				mode.CancelInWrite = true
+			case 2:
+				mode.CancelInWrite, mode.Ready = true, false
+			}
 		}
 		return g, genPidToken(r, i%5 == 0), mode
 	case "C07":
@@ -877,8 +983,15 @@ func doReplay(path, prop string) int {
 	var o observation
 	var fs []failure
 	if len(rp.Replay.Before) == 0 {
-		o = runOne(d.Tok, d.Gen.Line, d.Mode)
-		fs = judge(prop, d, o)
+		// context cancelled while the correlator receives: which arm the hand-off takes differs from run to run
+		tries := 1
+		if d.Mode.raceyHandoff() {
+			tries = 40
+		}
+		for try := 0; try < tries && len(fs) == 0; try++ {
+			o = runOne(d.Tok, d.Gen.Line, d.Mode)
+			fs = judge(prop, d, o)
+		}
 	} else {
 		// the failure may depend on the lines processed before it in the same process (state kept across lines:
 		// pools, caches, counters): feed them first, in order, then the line — never the line first, which could
